@@ -44,7 +44,6 @@ MW_ACTIONS = ('complete', 'http_error', 'http_status', 'app_handled', 'app_unhan
 H_ACTIONS = ('ret', 'http_error', 'http_status')
 STACKS = ('wsgi', 'asgi')
 
-KNOWN_FALSY = 'falsy-resource-skips-process-resource'
 
 
 class AppErrH(Exception):
@@ -447,10 +446,19 @@ def build_app(script, stack, lctx=None, defer_from=None):
     n_ctor = script.get('ctor')
     single = bool(script.get('add_single'))
 
+    index_of = {id(mw): i for i, mw in mws}
+    ctx.falsy_bare = set()      # falsy components that were handed over as a single bare object
+
+    def note_bare(mw):
+        i = index_of.get(id(mw))
+        if i is not None and script['comps'][i].get('falsy'):
+            ctx.falsy_bare.add(i)
+
     def add(items):
         # "as if they had been appended to the original middleware list" (App.add_middleware)
         if single:
             for mw in items:
+                note_bare(mw)
                 app.add_middleware(mw)
         elif items:
             app.add_middleware(items)
@@ -468,6 +476,7 @@ def build_app(script, stack, lctx=None, defer_from=None):
     spell = script.get('mw_arg') or 'list'
     if spell == 'bare' and len(first) == 1 or (len(first) == 1 and single and spell == 'list'):
         arg = first[0]                      # a single bare component instead of an iterable
+        note_bare(arg)
     elif spell == 'tuple':
         arg = tuple(first)
     elif spell == 'iter':
@@ -526,24 +535,6 @@ def refusal_reason_is_prepare_stage(script):
     return bool(script.get('refused')) and script['refused']['why'] in ('nomethods', 'compat')
 
 
-def falsy_bare_indices(script, n_registered=None):
-    """Indices of falsy components that are handed to the framework as a single bare object."""
-    comps = script['comps']
-    n = len(comps) if n_registered is None else n_registered
-    n_ctor = script.get('ctor')
-    first = list(range(n)) if n_ctor is None else [i for i in range(n) if i < n_ctor]
-    later = [] if n_ctor is None else [i for i in range(n) if i >= n_ctor]
-    out = []
-    single = bool(script.get('add_single'))
-    if len(first) == 1 and ((script.get('mw_arg') == 'bare') or (single and (script.get('mw_arg') or 'list') == 'list')):
-        out += [i for i in first if comps[i].get('falsy')]
-    if single:
-        out += [i for i in later if comps[i].get('falsy')]
-    if n_registered is not None and single:
-        out += [i for i in range(n, len(comps)) if comps[i].get('falsy')]
-    return out
-
-
 def build_checked(rec, script, stack, **kw):
     """build_app, turning a failure into a report (classified when a recorded defect explains it)."""
     try:
@@ -578,31 +569,14 @@ def drive(app, ctx, case):
 
 # ------------------------------------------------------------------ the monitor
 
-def classify(script, case, got, want):
-    """Narrow classifier for the one recorded finding: a route matched a resource whose truth value is
-    False and the ONLY difference is that the resource methods were not called."""
-    if case['kind'] != 'falsy':
-        return None
-    eff = M.effective(script, case['stack'])
-    if not any(v['rsrc'] for _, v in eff):
-        return None
-    # what the discipline yields if process_resource is (wrongly) skipped for this resource
-    alt_script = dict(script, comps=[dict(c, rsrc=None) for c in script['comps']])
-    alt_case = dict(case, actions={k: v for k, v in case['actions'].items() if not k.endswith('.rsrc')})
-    alt = M.interpret(alt_script, alt_case)
-    if got[0] == [_norm(e) for e in alt[0]] and got[1] == alt[1]:
-        return KNOWN_FALSY
-    return None
-
-
-def classify_falsy_bare(script, case, got_n, status):
+def classify_falsy_bare(script, case, got_n, status, ctx):
     """Narrow: a component whose truth value is False was handed over as a single bare object (constructor or
     add_middleware) and the ONLY difference is that this component takes no part at all."""
-    idx = falsy_bare_indices(script, case.get('pre_add'))
+    idx = ctx.falsy_bare
     if not idx:
         return None
-    alt_script = dict(registered_script(script, case),
-                      comps=[BLANK if i in idx else c for i, c in enumerate(registered_script(script, case)['comps'])])
+    reg = registered_script(script, case)
+    alt_script = dict(reg, comps=[BLANK if i in idx else c for i, c in enumerate(reg['comps'])])
     alt_case = dict(case, actions={k: v for k, v in case['actions'].items()
                                    if not any(k.startswith('M%d.' % i) for i in idx)})
     alt = M.interpret(alt_script, alt_case)
@@ -646,9 +620,7 @@ def check_case(rec, script, case, app, ctx, count=True):
     got_n = [_norm(e) for e in trace]
     want_n = [_norm(e) for e in want_trace]
     if got_n != want_n:
-        known = classify(script, case, (got_n, status), None)
-        if known is None:
-            known = classify_falsy_bare(script, case, got_n, status)
+        known = classify_falsy_bare(script, case, got_n, status, ctx)
         rec.violation(_mismatch_kind(got_n, want_n), {'script': script, 'case': case, 'got': got_n, 'want': want_n,
                                                        'status': status, 'want_status': want_status},
                       known_key=known)
@@ -1106,7 +1078,7 @@ def run_lifespan_case(rec, script, lactions, count=True, built=None, late=None):
                 [t for t in got_trace if t[1] < EXTRA] == want_trace:
             # narrow: only the handlers of the components of the REFUSED call are surplus
             known = KNOWN_REFUSED
-        idx = falsy_bare_indices(script, len(script['comps']) - late['n'] if late else None)
+        idx = ctx.falsy_bare if ctx is not None else set()
         if known is None and idx:
             alt = M.interpret_lifespan(
                 dict(script, comps=[dict(c, startup=False, shutdown=False) if i in idx else c
@@ -1146,8 +1118,7 @@ def run_lifespan_case(rec, script, lactions, count=True, built=None, late=None):
         case = {'stack': 'asgi', 'kind': 'route', 'actions': {}, 'hactions': ['ret']}
         if count:
             rec.count('lifespan.late.http_after')
-        # (for the request the late registration is the same as a constructor/add_middleware split)
-        check_case(rec, dict(script, ctor=len(script['comps']) - late['n']), case, app, ctx, count=False)
+        check_case(rec, script, case, app, ctx, count=False)
 
 
 def lifespan_exhaustive(rec):
